@@ -44,6 +44,11 @@ func runC05(r *fw.Run, p *fw.Program) {
 		r.Import(sc, "C01.fetch", "C05.transport", "the bits of a range reach the output unchanged: IOBitReadSeeker.ReadBitsAt moves every fetched byte to its place (C01.fetch); bitio.Buffer, the fifo inside the byte view, makes room for exactly the bits it holds and never relocates them other than by the decided reset (C01.bufstate); an array of values is the concatenation of one reader per member, in order, each member read from its own reader and range (C09.accept)", 12, nil)
 		r.Import(sc, "C01.bufstate", "C05.transport", "", 12, nil)
 		r.Import(sc, "C09.accept", "C05.transport", "", 12, nil)
+		// the bytes of a file reach the bit reader through the read-ahead cache and the position-independent ReadBitsAt
+		c01Ahead(sc, p)
+		c01ReadAt(sc, p)
+		r.Import(sc, "C01.ahead", "C05.transport", "", 12, nil)
+		r.Import(sc, "C01.readat", "C05.transport", "", 12, nil)
 	}
 	// the bytes a value denotes are RootReader[Range]: decode() must rebase ranges AND retarget the reader of every
 	// value of a nested format to the enclosing buffer (borrowed from C03.rebase)
